@@ -272,6 +272,8 @@ pub fn scenarios(thorough: bool) -> Vec<(Resv, usize)> {
             (Resv { peers: 2, pieces: 13, gated: false, masks: vec![7], with_close: false, with_interest: false, repeat_bitfield: false }, 6),
             (Resv { peers: 2, pieces: 13, gated: false, masks: vec![1, 3], with_close: false, with_interest: false, repeat_bitfield: true }, 5),
             (Resv { peers: 1, pieces: 3, gated: false, masks: vec![1, 6], with_close: false, with_interest: true, repeat_bitfield: true }, 7),
+            // held-back broadcasts: a peer can leave, choke or finish before its task saw SendHave
+            (Resv { peers: 2, pieces: 3, gated: true, masks: vec![7], with_close: true, with_interest: false, repeat_bitfield: false }, 6),
         ]
     }
 }
